@@ -10,6 +10,7 @@ CONSTANTS
   FnFilter = "nogeneric3"
   Shapes = {"plain"}
   MaxSess = 2
+  FixProtoCache = FALSE
   Bug = "none"
 INVARIANT InvDiagnosis
 INVARIANT InvResult
